@@ -35,6 +35,14 @@ type Case struct {
 func genCase(t *rapid.T) Case {
 	var c Case
 	c.Spec = gen.HandshakeMachine(t, gen.HSOptions{MaxProcs: 6, MaxPad: 2, Replicate: true})
+	if rapid.IntRange(0, 4).Draw(t, "placeholder") == 0 {
+		// an unconnected placeholder core: no program yet (the simulator cannot initialise it and simply
+		// leaves it halted)
+		at := rapid.IntRange(0, len(c.Spec.Procs)).Draw(t, "placeholder_at")
+		if at == len(c.Spec.Procs) { // only as the last processor: the bonds name processors by index
+			c.Spec.Procs = append(c.Spec.Procs, gen.ProcSpec{R: 1, O: 1, Ops: []string{"j"}})
+		}
+	}
 	// number type the outputs are printed in: valid ones, ones of the wrong width and unknown ones
 	// (a simulation that ends with an error has finished too and must release what it started)
 	c.DataType = rapid.SampledFrom([]string{"unsigned", "unsigned", "float32", "float16", "fps16f4", "nosuchtype", "flpe4f4"}).Draw(t, "dtype")
@@ -220,10 +228,94 @@ func prop(c Case) pbt.Outcome {
 	return pbt.Outcome{NonTrivial: nt, Labels: labels}
 }
 
+// ---------------------------------------------------------------------------
+// retained memory: a long batch of simulations whose inputs change every time (a batch job over fresh data)
+
+type HeapCase struct {
+	Spec  gen.BMSpec
+	N     int // simulations per measured stretch
+	Seed  uint64
+	DType string
+}
+
+func genHeap(t *rapid.T) HeapCase {
+	var c HeapCase
+	c.Spec = gen.HandshakeMachine(t, gen.HSOptions{MaxProcs: 2, MaxPad: 1, Rsizes: []int{32}})
+	c.N = rapid.SampledFrom([]int{1500, 2500}).Draw(t, "n")
+	c.Seed = rapid.Uint64().Draw(t, "seed")
+	c.DType = rapid.SampledFrom([]string{"unsigned", "float32"}).Draw(t, "dtype")
+	return c
+}
+
+func liveHeap() uint64 {
+	runtime.GC()
+	runtime.GC()
+	var ms runtime.MemStats
+	runtime.ReadMemStats(&ms)
+	return ms.HeapAlloc
+}
+
+func propHeap(c HeapCase) pbt.Outcome {
+	if c.N < 100 || c.N > 20000 {
+		return pbt.Outcome{Excluded: "bad-case"}
+	}
+	bm, err := gen.Build(c.Spec)
+	if err != nil {
+		return pbt.Outcome{Excluded: "build-error"}
+	}
+	k := c.Seed
+	one := func() {
+		in := make([]string, c.Spec.Inputs)
+		for i := range in {
+			k = k*6364136223846793005 + 1442695040888963407
+			if c.DType == "float32" {
+				in[i] = fmt.Sprintf("0f%d.%03d", (k>>40)%1000, (k>>20)%1000)
+			} else {
+				in[i] = fmt.Sprintf("%d", (k>>33)%4000000000)
+			}
+		}
+		func() {
+			defer func() { _ = recover() }()
+			_, _ = bm.SinglePipelineSimulate(c.DType, in, nil)
+		}()
+	}
+	stretch := func() uint64 {
+		for i := 0; i < c.N; i++ {
+			one()
+		}
+		settle()
+		return liveHeap()
+	}
+	for i := 0; i < 50; i++ { // warm-up: lazily built tables
+		one()
+	}
+	h0 := liveHeap()
+	h1 := stretch()
+	h2 := stretch()
+	h3 := stretch()
+	labels := []string{fmt.Sprintf("inputs=%d", c.Spec.Inputs), "dtype=" + c.DType}
+	// bounded resources: the live heap after a stretch of N finished simulations does not keep growing by an
+	// amount proportional to N. 64 bytes per simulation is far below what any per-simulation record costs and
+	// far above the noise of the measurement (a constant, a few tens of kB whatever N is).
+	limit := uint64(64 * c.N)
+	grew := func(a, b uint64) bool { return b > a && b-a > limit }
+	if c.Spec.Inputs > 0 && grew(h1, h2) && grew(h2, h3) {
+		return pbt.Outcome{NonTrivial: true, Labels: labels, Fail: pbt.Failf("heap-growth",
+			"live heap after garbage collection keeps growing with the number of finished simulations whose inputs differ: %d bytes after warm-up, %d after %d simulations, %d after %d, %d after %d (%.0f bytes per simulation)",
+			h0, h1, c.N, h2, 2*c.N, h3, 3*c.N, float64(h3-h1)/float64(2*c.N))}
+	}
+	return pbt.Outcome{NonTrivial: c.Spec.Inputs > 0, Labels: labels}
+}
+
+var heapEntry = pbt.Def("heap_bounded",
+	"1..2-processor machines of 32-bit registers; three stretches of 1500/2500 SinglePipelineSimulate calls whose input strings differ every time (unsigned or float32 literals), after a warm-up of 50; the live heap after two forced collections must not grow by more than 64 bytes per simulation in both of the last two stretches; non-trivial = the machine has an external input",
+	genHeap, propHeap)
+
 var Props = []*pbt.Entry{
 	pbt.Def("no_leak",
 		"live dataflow-shaped machines of 1..6 processors; warm-up batch of 1/2/5 then two measured batches of 3/5/10/25 single-shot simulations (SinglePipelineSimulate, or Fitness_default with an empty input simbox), from 1/2/4/8 concurrent callers; goroutine count after a settle loop must not grow in both measured batches, nor may the number of entries of the process-wide registries (number types, matchers, opcodes); non-trivial = batch>=5 and >=2 processors",
 		genCase, prop),
+	heapEntry,
 }
 
 func TestProps(t *testing.T)  { pbt.RunAll(t, "C17", Props) }
